@@ -78,7 +78,10 @@ impl W {
 }
 fn cnt16(n: usize, what: &str) -> Result<u16, String> { u16::try_from(n).map_err(|_| format!("{what}: count {n} does not fit u16")) }
 
-struct E { pool: PoolB, rng: Rng, canonical: bool }
+struct E { pool: PoolB, rng: Rng, canonical: bool,
+    /// only with `emit_front(.., front != [])`: the constant-collecting dry run sizes one-slot `ldc`s with 2 bytes (the
+    /// real run decides with the real indices), so that a method that only fits with short `ldc`s is not refused early
+    dry_short_ldc: bool }
 
 pub fn emit(c: &Class, layout: &Layout) -> Result<Vec<u8>, String> { emit_front(c, layout, &[]) }
 
@@ -88,7 +91,7 @@ pub fn emit(c: &Class, layout: &Layout) -> Result<Vec<u8>, String> { emit_front(
 /// `front == []` is exactly `emit`. Constants in `front` that the class never uses become unused pool entries.
 pub fn emit_front(c: &Class, layout: &Layout, front: &[Const]) -> Result<Vec<u8>, String> {
     let mk = |assigned: Option<Vec<Vec<u16>>>, ids: HashMap<K, Id>, entries: Vec<K>, bsm: Vec<(Id, Vec<Id>)>| E {
-        pool: PoolB { ids, entries, bsm, assigned, rng: Rng::new(layout.seed ^ 0x51ab) }, rng: Rng::new(layout.seed ^ 0xe317), canonical: layout.canonical,
+        pool: PoolB { ids, entries, bsm, assigned, rng: Rng::new(layout.seed ^ 0x51ab) }, rng: Rng::new(layout.seed ^ 0xe317), canonical: layout.canonical, dry_short_ldc: !front.is_empty(),
     };
     // dry run: collect constants
     let mut e = mk(None, HashMap::new(), vec![], vec![]);
@@ -376,7 +379,7 @@ impl E {
                     if k.is_wide() { cidx[i] = self.pool.ix(id); enc[i] = Enc::Wide; }
                     else {
                         let min = self.pool.ix_min(id);
-                        if self.pool.assigned.is_some() && min <= 255 && (self.canonical || !self.rng.chance(1, 4)) { cidx[i] = min; enc[i] = Enc::Short; } else { cidx[i] = self.pool.ix(id); enc[i] = Enc::Normal; }
+                        if (self.pool.assigned.is_some() && min <= 255 && (self.canonical || !self.rng.chance(1, 4))) || (self.dry_short_ldc && self.pool.assigned.is_none()) { cidx[i] = min; enc[i] = Enc::Short; } else { cidx[i] = self.pool.ix(id); enc[i] = Enc::Normal; }
                     }
                 }
                 Insn::Branch(o, _) => { enc[i] = if (*o == op::GOTO || *o == op::JSR) && !self.canonical && self.rng.chance(1, 6) { Enc::Wide } else { Enc::Normal }; }
